@@ -9,6 +9,7 @@ import datetime
 import json
 import os
 import pickle
+import random
 
 import numpy as np
 import h5py
@@ -428,4 +429,162 @@ def apply_overrides(w, ov):
             w.dividends.pop(sid, None)
     for sid in set(list(ov.get('splits', {})) + list(ov.get('dividends', {}))):
         w.exfac[sid] = consistent_exfac(w, sid)
+    return w
+
+
+def mutate_future(w, mut):
+    """Alter everything dated after a cut-off, leave everything up to it untouched (C07).
+    mut: dict(day=index into w.days, phase='before_trading'|'open_auction'|'bar'|'day', bar=minute index, seed=int).
+    before_trading: the whole bar of that day is future except its limits (and a future's previous settlement);
+    open_auction: open, limits, volume and turnover of that day are visible, close / high / low (settlement) are future;
+    bar (minute runs): minute bars after index `bar` and the day bar's close / high / low / volume are future;
+    day: only later days are future."""
+    rng = random.Random(mut['seed'])
+    days = w.days
+    cut = days[mut['day']]
+    phase = mut['phase']
+    cutint = dint(cut)
+
+    def whole_future(d):
+        return d > cut or (d == cut and phase == 'before_trading')
+
+    def clamp(x, b):
+        return min(max(x, b['limit_down']), b['limit_up'])
+    for table, fut in ((w.stock_bars, False), (w.future_bars, True)):
+        for oid, bars in table.items():
+            mult = w.instruments[oid]['mult'] if fut else 1.0
+            drift = 1.0
+            for b in bars:
+                d = b['d']
+                if whole_future(d):
+                    drift *= rng.choice([0.9, 0.95, 1.0, 1.05, 1.1])
+                    keep_limits = d == cut
+                    f = drift
+                    for k in ('open', 'close', 'high', 'low') + (() if keep_limits else ('limit_up', 'limit_down')) + (('settlement',) if fut else ()):
+                        b[k] = float(round(b[k] * f)) if fut else round(b[k] * f * 8) / 8
+                    if fut and not keep_limits and d != days[min(mut['day'] + 1, len(days) - 1)]:
+                        b['prev_settlement'] = float(round(b['prev_settlement'] * f))
+                    if keep_limits:
+                        for k in ('open', 'close'):
+                            b[k] = clamp(b[k], b)
+                    b['high'], b['low'] = max(b['open'], b['close']), min(b['open'], b['close'])
+                    if fut:
+                        b['settlement'] = min(max(b['settlement'], b['low']), b['high'])
+                    r = rng.random()
+                    if r < 0.25:
+                        b['volume'] = 0.0
+                    elif r < 0.5:
+                        b['volume'] = float(rng.choice([100, 700, 4000, 2000000]))
+                    b['total_turnover'] = b['volume'] * (b['low'] + (b['high'] - b['low']) * rng.choice([0, 0.5, 1.0])) * mult
+                elif d == cut and phase in ('open_auction', 'bar'):
+                    if phase == 'bar' and w.minutes is not None:
+                        continue        # handled with the minute bars below
+                    f = rng.choice([0.93, 0.97, 1.04, 1.08])
+                    c = clamp(float(round(b['close'] * f)) if fut else round(b['close'] * f * 8) / 8, b)
+                    b['close'] = c
+                    b['high'], b['low'] = max(b['open'], c, clamp(b['high'] * f, b)), min(b['open'], c, clamp(b['low'] * f, b))
+                    if fut:
+                        b['settlement'] = min(max(float(round(b['settlement'] * f)), b['low']), b['high'])
+    # minute bars
+    if w.minutes is not None:
+        for oid, rows in w.minutes.items():
+            fut = oid in w.future_bars
+            daily = {b['d']: b for b in (w.future_bars if fut else w.stock_bars)[oid]}
+            minutes = FUT_MINUTES if fut else STOCK_MINUTES
+            mult = w.instruments[oid]['mult'] if fut else 1.0
+            out = []
+            byday = {}
+            for r in rows:
+                byday.setdefault(r['datetime'] // 1000000, []).append(r)
+            for d in sorted(daily):
+                di = dint(d)
+                if whole_future(d):
+                    out.extend(minute_bars_for_day(rng, daily[d], minutes, 'future' if fut else 'stock', mult))
+                elif d == cut and phase == 'bar':
+                    old = byday[di]
+                    keep = old[:mut['bar'] + 1]
+                    rest = old[mut['bar'] + 1:]
+                    p = keep[-1]['close']
+                    b = daily[d]
+                    for r in rest:
+                        c = clamp(round(p * (1 + rng.uniform(-0.02, 0.02)) * 8) / 8 if not fut else p + rng.choice([-20, -5, 5, 15]), b)
+                        r.update(open=p, close=c, high=max(p, c), low=min(p, c))
+                        r['volume'] = float(rng.choice([0, 100, 900, 300000]) if not fut else rng.choice([0, 2, 15, 600]))
+                        r['total_turnover'] = r['volume'] * (r['low'] + (r['high'] - r['low']) * rng.choice([0, 0.5, 1.0])) * mult
+                        p = c
+                    if rest:
+                        b['close'] = p
+                        b['high'] = max(x['high'] for x in old)
+                        b['low'] = min(x['low'] for x in old)
+                        b['volume'] = float(sum(x['volume'] for x in old))
+                        b['total_turnover'] = float(sum(x['total_turnover'] for x in old))
+                        if fut:
+                            b['settlement'] = min(max(b['settlement'], b['low']), b['high'])
+                    out.extend(old)
+                else:
+                    out.extend(byday.get(di, []))
+            w.minutes[oid] = out
+    # suspensions after the cut-off
+    for sid in list(w.stock_bars):
+        if sid in STOCKS[:2] and rng.random() < 0.5:
+            fd = [b for b in w.stock_bars[sid] if b['d'] > cut]
+            keep = [x for x in w.suspended.get(sid, []) if x <= cutint]
+            if fd and rng.random() < 0.7:
+                b = rng.choice(fd)
+                keep.append(dint(b['d']))
+                b.update(volume=0.0, total_turnover=0.0)
+            if keep:
+                w.suspended[sid] = sorted(keep)
+            else:
+                w.suspended.pop(sid, None)
+    # corporate actions announced / effective after the cut-off
+    for sid in list(w.stock_bars):
+        divs = w.dividends.get(sid, [])
+        kept = [dv for dv in divs if dv[1] <= cutint]
+        changed = len(kept) != len(divs)
+        bd = [dint(b['d']) for b in w.stock_bars[sid] if b['d'] > cut]
+        if sid in STOCKS[:2] + [ETF] and len(bd) >= 4 and rng.random() < 0.5 and not kept:
+            i = rng.randint(1, len(bd) - 3)
+            kept.append((bd[i], bd[i - 1], rng.choice([1.0, 0.5, 2.0]), bd[i + 1], bd[min(i + 2, len(bd) - 1)], 10.0))
+            changed = True
+        if changed:
+            if kept:
+                w.dividends[sid] = kept
+            else:
+                w.dividends.pop(sid, None)
+        sp = w.splits.get(sid, [])
+        keep_sp = [s for s in sp if s[0] <= cutint]
+        if sid in STOCKS[:2] + [ETF] and len(bd) >= 2 and rng.random() < 0.5:
+            keep_sp.append((rng.choice(bd[1:]), rng.choice([2.0, 0.5, 1.5])))
+        if keep_sp != sp:
+            changed = True
+            if keep_sp:
+                w.splits[sid] = keep_sp
+            else:
+                w.splits.pop(sid, None)
+        old_rows = w.exfac.get(sid, [(0, 1.0)])
+        past = [r for r in old_rows if r[0] <= cutint * 1000000]
+        new_rows = consistent_exfac(w, sid)
+        base = past[-1][1]
+        fresh = [r for r in new_rows if r[0] > cutint * 1000000]
+        # keep the table up to the cut-off exactly, chain the later rows onto it
+        prev_new = [r for r in new_rows if r[0] <= cutint * 1000000][-1][1]
+        w.exfac[sid] = past + [(k, base * (f / prev_new)) for k, f in fresh]
+    return w
+
+
+def prune(w, keep):
+    """drop every instrument the strategy never references (the index and conversion successors of kept stocks stay)"""
+    keep = set(keep)
+    for sid, tf in w.transform.items():
+        if sid in keep:
+            keep.add(tf['successor'])
+    for table in (w.stock_bars, w.future_bars, w.instruments, w.dividends, w.splits, w.exfac, w.suspended, w.transform):
+        for k in list(table):
+            if k not in keep:
+                del table[k]
+    if w.minutes is not None:
+        for k in list(w.minutes):
+            if k not in keep:
+                del w.minutes[k]
     return w
